@@ -183,6 +183,319 @@ def corr_objects_x(check, tier):
             check.sample({'universe': X.jsonable(desc), 'case': enc_cases[0][1][:400]})
 
 
+# ------------------------------------------------------------------ the call level: shared machinery
+PROTS = ['xml', 'soap11', 'soap12']
+VALIDATORS = [None, 'soft', 'lxml']
+G_PROTO = {'xml': 'PXml', 'soap11': 'PSoap11', 'soap12': 'PSoap12'}
+G_VMODE = {None: 'ValNone', 'soft': 'ValSoft', 'lxml': 'ValLxml'}
+FCODES = {'Client.ValidationError': 'FValidation', 'Client.SchemaValidationError': 'FSchema', 'Client.SoapError': 'FSoapError',
+          'Client.ResourceNotFound': 'FNotFound', 'Server': 'FServer'}
+
+
+def prot_class(p):
+    from spyne.protocol.xml import XmlDocument
+    from spyne.protocol.soap import Soap11, Soap12
+    return {'xml': XmlDocument, 'soap11': Soap11, 'soap12': Soap12}[p]
+
+
+def gen_call(rng, desc, m, with_headers=True):
+    """conformant arguments, header values, the planned return value and out header of one call"""
+    if m['style'] == 'bare' and len(m['params']) == 1:
+        p = m['params'][0]
+        # the body element of a bare method is not declared nillable in the published schema
+        args = [X.gen_value(rng, desc, p['ty'], rng.randint(1, 3), nullable=False)]
+        if X.nonelike(args[0]):
+            args = [X.gen_value(rng, desc, p['ty'], 2, nullable=False)]
+            if args[0] == ('bytes', b''):
+                args = [('bytes', b'q')]
+    else:
+        args = [X.gen_field_value(rng, desc, p, rng.randint(1, 3)) for p in m['params']]
+    rets = []
+    for r in m['returns']:
+        if m['style'] == 'wrapped':
+            rets.append(X.gen_field_value(rng, desc, r, rng.randint(1, 3)))
+        else:
+            v = X.gen_value(rng, desc, r['ty'], rng.randint(1, 3), nullable=r['nillable'])
+            if X.nonelike(v) and not r['nillable']:
+                v = X.gen_value(rng, desc, r['ty'], 2, nullable=False)
+                if v == ('bytes', b''):
+                    v = ('bytes', b'q')
+            rets.append(v)
+    ret = ('none',) if not rets else (rets[0] if len(rets) == 1 else ('list', rets))
+    ih = oh = None
+    if with_headers and m['in_header'] and rng.random() < 0.85:
+        ih = [X.gen_value(rng, desc, ('ref', c), 2, nullable=True) for c in m['in_header']]
+    if with_headers and m['out_header'] and rng.random() < 0.85:
+        oh = [X.gen_value(rng, desc, ('ref', c), 2, nullable=True) for c in m['out_header']]
+    return {'args': args, 'ret': ret, 'in_header': ih, 'out_header': oh}
+
+
+def expected_call(desc, m, call):
+    """what the user function must be handed: (in_header, args) after the property's identifications"""
+    if m['style'] == 'bare' and len(m['params']) == 1:
+        args = [X.norm_value(desc, m['params'][0]['ty'], call['args'][0])]
+    else:
+        args = [X.norm_field_value(desc, p, a) for p, a in zip(m['params'], call['args'])]
+    ih = None if call['in_header'] is None else [X.norm_value(desc, ('ref', c), v) for c, v in zip(m['in_header'], call['in_header'])]
+    if ih == [('none',)]:
+        ih = None            # a single header class: ctx.in_header is the header object itself, here None
+    return ih, args
+
+
+def expected_return(desc, m, call):
+    rets = m['returns']
+    if not rets:
+        return ('none',)
+    if m['style'] == 'wrapped':
+        if len(rets) == 1:
+            return X.norm_field_value(desc, rets[0], call['ret'])
+        return ('list', [X.norm_field_value(desc, r, v) for r, v in zip(rets, call['ret'][1])])
+    return X.norm_value(desc, rets[0]['ty'], call['ret'])
+
+
+def plan_call(plan, desc, classes, m, call):
+    plan.log[:] = []
+    rets = m['returns']
+    if not rets:
+        plan.returns[m['name']] = None
+    elif len(rets) == 1:
+        plan.returns[m['name']] = X.to_native(desc, classes, call['ret'])
+    else:
+        plan.returns[m['name']] = tuple(X.to_native(desc, classes, v) for v in call['ret'][1])
+    plan.out_header[m['name']] = None if call['out_header'] is None else [X.to_native(desc, classes, v) for v in call['out_header']]
+
+
+def request_doc(rng, desc, classes, app, prot, m, call):
+    """the request as an independent schema-directed client writes it (lxml element)"""
+    from lxml import etree
+    tns = desc['tns']
+    d = X.method_descriptor(app, m['name'])
+    if m['style'] == 'bare' and len(m['params']) == 1:
+        body = X.ref_encode(desc, classes, m['params'][0]['ty'], d.in_message, tns, m['name'], call['args'][0], rng, tns)
+    else:
+        body = etree.Element('{%s}%s' % (tns, m['name']))
+        X.ref_encode_members(desc, classes, None, body, call['args'], rng, tns, fields=[(None, p) for p in m['params']],
+                             ns_of=lambda _c: tns, type_of=lambda _c, f: d.in_message._type_info[f['name']])
+    hdrs = None
+    if call['in_header'] is not None and prot != 'xml':
+        hdrs = [X.ref_encode(desc, classes, ('ref', c), classes[c], desc['classes'][c]['ns'], desc['classes'][c]['name'], v, rng, tns)
+                for c, v in zip(m['in_header'], call['in_header'])]
+    return X.soap_envelope(prot, hdrs, body), body
+
+
+def captured_log(desc, classes, svc, plan):
+    """plan.log -> [(method name, in_header neutral list or None, [neutral args])]"""
+    out = []
+    for name, ih, args in plan.log:
+        m = [x for x in svc['methods'] if x['name'] == name][0]
+        if ih is None:
+            h = None
+        elif len(m['in_header']) == 1:
+            h = [X.from_native(desc, classes, ('ref', m['in_header'][0]), ih)]
+        else:
+            h = [X.from_native(desc, classes, ('ref', c), x) for c, x in zip(m['in_header'], ih)]
+        if m['style'] == 'bare' and len(m['params']) == 1:
+            a = [X.from_native(desc, classes, m['params'][0]['ty'], args[0])] if len(args) == 1 else [('other', 'arity', repr(args)[:80])]
+        elif len(args) != len(m['params']):
+            a = [('other', 'arity', repr(args)[:80])]
+        else:
+            a = [X.field_from_native(desc, classes, p, x) for p, x in zip(m['params'], args)]
+        out.append((name, h, a))
+    return out
+
+
+def server_parse(raw):
+    """the tree the server's parser builds (XmlDocument.parser_kwargs: comments and PIs removed)"""
+    from lxml import etree
+    return etree.fromstring(raw, parser=etree.XMLParser(remove_comments=True, remove_pis=True, resolve_entities=False))
+
+
+def drive_server(app, body_bytes):
+    """('return', response bytes) | ('fault', faultcode) | ('crash', CoqExn, PythonName); the call log is in the plan"""
+    from spyne.server import ServerBase
+    from spyne import MethodContext
+    try:
+        srv = ServerBase(app)
+        ctx = MethodContext(srv, MethodContext.SERVER)
+        ctx.in_string = [body_bytes]
+        ctx = srv.generate_contexts(ctx)[0]
+        if ctx.in_error is not None:
+            return ('fault', ctx.in_error.faultcode, str(ctx.in_error.faultstring)[:300])
+        srv.get_in_object(ctx)
+        if ctx.in_error is not None:
+            return ('fault', ctx.in_error.faultcode, str(ctx.in_error.faultstring)[:300])
+        srv.get_out_object(ctx)
+        if ctx.out_error is not None:
+            return ('fault', ctx.out_error.faultcode, str(ctx.out_error.faultstring)[:300])
+        srv.get_out_string(ctx)
+        return ('return', b''.join(ctx.out_string))
+    except Exception as e:
+        n = type(e).__name__
+        return ('crash', EXN.get(n, 'OtherExn'), n)
+
+
+def g_log(log):
+    return glist(['(%s, %s, %s)' % (gtext(n), gopt(h, lambda hh: glist([X.g_val(v) for v in hh])), glist([X.g_val(v) for v in a]))
+                  for n, h, a in log])
+
+
+def log_in_universe(log):
+    return all((h is None or all(X.in_universe(v) for v in h)) and all(X.in_universe(v) for v in a) for _, h, a in log)
+
+
+def g_ufun(call):
+    return '(fun _ _ _ => (%s, %s))' % (X.g_val(call['ret']), gopt(call['out_header'], lambda hh: glist([X.g_val(v) for v in hh])))
+
+
+class World(object):
+    """one generated universe + service, and one Application per (protocol, validator)"""
+
+    def __init__(self, rng, model_only=True, header_ns_tns=False, n_classes=None, n_methods=None):
+        self.desc = X.gen_universe(rng, n_classes=n_classes or rng.randint(2, 5), model_only=model_only)
+        self.svc = X.gen_service(rng, self.desc, n_methods=n_methods or rng.randint(3, 5), model_only=model_only,
+                                 header_ns_tns=header_ns_tns)
+        self.classes = X.build_classes(self.desc)
+        self.apps = {}
+
+    def app(self, prot, val):
+        if (prot, val) not in self.apps:
+            plan = X.Plan()
+            app, _ = X.build_app(self.desc, self.svc, prot_class(prot), val, plan, classes=self.classes)
+            self.apps[(prot, val)] = (app, plan)
+        return self.apps[(prot, val)]
+
+    def coq_defs(self, app):
+        return ('Definition UU : universe := %s.\nDefinition SV : service := %s.\n'
+                % (X.g_universe(self.desc, self.classes), X.g_service(self.desc, self.svc, app)))
+
+
+# ------------------------------------------------------------------ correspondence: full requests through ServerBase
+def corr_calls(check, tier):
+    from lxml import etree
+    rng = check.rng
+    n_worlds = 8 if tier == 'quick' else 60
+    per_method = 2 if tier == 'quick' else 5
+    for wi in range(n_worlds):
+        w = World(rng)
+        for prot in PROTS:
+            for val in VALIDATORS:
+                app, plan = w.app(prot, val)
+                imports = IMPORTS_X + w.coq_defs(app)
+                cases = []
+                for mi, m in enumerate(w.svc['methods']):
+                    for _ in range(per_method):
+                        call = gen_call(rng, w.desc, m)
+                        doc, body = request_doc(rng, w.desc, w.classes, app, prot, m, call)
+                        docs = [(doc, 'as written')]
+                        for _ in range(2):
+                            d2 = copy.deepcopy(doc)
+                            b2 = d2 if prot == 'xml' else d2.find('{*}Body')[0]
+                            what = mutate(rng, b2)
+                            if what:
+                                docs.append((d2, what))
+                        if prot != 'xml' and rng.random() < 0.3:
+                            d2 = copy.deepcopy(doc)
+                            what = mutate_envelope(rng, d2)
+                            if what:
+                                docs.append((d2, what))
+                        for dd, what in docs:
+                            raw = etree.tostring(dd)
+                            plan_call(plan, w.desc, w.classes, m, call)
+                            obs = drive_server(app, raw)
+                            log = captured_log(w.desc, w.classes, w.svc, plan)
+                            if not log_in_universe(log):
+                                check.mismatch('call_server', 'captured arguments outside the universe: %r for %s' % (log, raw.decode()[:300]))
+                                continue
+                            sv = True
+                            if obs[0] == 'return':
+                                g_obs = '(RReturn %s %s)' % (g_log(log), X.g_xml(etree.fromstring(obs[1])))
+                            elif obs[0] == 'fault':
+                                if obs[1] not in FCODES:
+                                    check.mismatch('call_server', 'unexpected fault %r for %s' % (obs[1], raw.decode()[:300]))
+                                    continue
+                                sv = obs[1] != 'Client.SchemaValidationError'
+                                g_obs = '(RFault %s %s)' % (g_log(log), FCODES[obs[1]])
+                            else:
+                                g_obs = '(RCrash %s %s)' % (g_log(log), obs[1])
+                            cases.append(('(%s, %s, %s, %s)' % (gbool(sv), X.g_xml(server_parse(raw)), g_ufun(call), g_obs),
+                                          'world %d %s/%s %s [%s] %s: %s -> %r log %r' % (
+                                              wi, prot, val, m['name'], m['style'], what, raw.decode()[:400], obs[:2] if obs[0] != 'return' else obs[1][:300], log)))
+                            check.count(('call', prot, val, raw))
+                            if what == 'as written':
+                                oracle_server_case(check, w, prot, val, m, call, raw, obs, log, 'ref-encoder')
+                lib.correspond(check, 'call_server', imports, 'bool * xnode * ufun * rsp',
+                               '(fun c => let \'(sv, doc, f, o) := c in rsp_eqb (rsp_wire (server spyne_leaf %s %s (fun _ => sv) UU SV %d f doc)) o)'
+                               % (G_PROTO[prot], G_VMODE[val], FUEL), cases,
+                               show='(fun c : bool * xnode * ufun * rsp => let \'(sv, doc, f, o) := c in server spyne_leaf %s %s '
+                                    '(fun _ => sv) UU SV %d f doc)' % (G_PROTO[prot], G_VMODE[val], FUEL))
+        if wi == 0:
+            check.sample({'service': X.jsonable(w.svc)})
+
+
+def mutate_envelope(rng, env):
+    from lxml import etree
+    r = rng.random()
+    kids = list(env)
+    if r < 0.3:
+        h = env.find('{*}Header')
+        if h is not None:
+            env.remove(h)
+            return 'drop Header'
+    if r < 0.5:
+        h = env.find('{*}Header')
+        if h is not None and len(h):
+            h.append(copy.deepcopy(h[0]))
+            return 'duplicate header entry'
+    if r < 0.7:
+        h = env.find('{*}Header')
+        if h is not None and len(h) >= 2:
+            a = h[0]
+            h.remove(a)
+            h.append(a)
+            return 'reorder header entries'
+    if r < 0.85:
+        b = env.find('{*}Body')
+        if b is not None and len(b):
+            b[0].tag = etree.QName(b[0]).namespace and '{%s}%s' % (etree.QName(b[0]).namespace, 'noSuchMethod') or 'noSuchMethod'
+            return 'unknown method'
+    env.tag = '{urn:not-soap}Envelope'
+    return 'foreign envelope'
+
+
+def call_key(site, prot, val, m, call, desc):
+    shapes = []
+    for p, a in zip(m['params'], call['args']):
+        shapes.append(shape_of(desc, p['ty'], a) or a[0])
+    return 'C01|call|%s|%s|%s|%s|%s' % (site, prot, val, m['style'], ';'.join(shapes)[:120])
+
+
+def call_replay(w, prot, val, m, call, extra=None):
+    r = {'kind': 'call', 'universe': X.jsonable(w.desc), 'service': X.jsonable(w.svc), 'protocol': prot, 'validator': val,
+         'method': m['name'], 'call': X.jsonable(call)}
+    if extra:
+        r.update(extra)
+    return r
+
+
+def oracle_server_case(check, w, prot, val, m, call, raw, obs, log, client):
+    """the property, server half, on one conformant request: exactly one invocation with equal values"""
+    ih, args = expected_call(w.desc, m, call)
+    if prot == 'xml':
+        ih = None
+    want = [(m['name'], ih, args)]
+    ok = obs[0] == 'return' and len(log) == 1 and log[0][0] == m['name'] \
+        and ((log[0][1] is None) == (ih is None)) \
+        and (ih is None or (len(ih) == len(log[0][1]) and all(X.eq_value(a, b) for a, b in zip(log[0][1], ih)))) \
+        and len(log[0][2]) == len(args) and all(X.eq_value(a, b) for a, b in zip(log[0][2], args))
+    if not ok:
+        check.fail(call_key('server-' + client, prot, val, m, call, w.desc),
+                   '%s validator=%s %s [%s]: request %s gave %r with call log %r; expected exactly one call %r' % (
+                       prot, val, m['name'], m['style'], raw.decode()[:400], obs if obs[0] != 'return' else 'a response', log, want),
+                   call_replay(w, prot, val, m, call, {'request': raw.decode('utf-8', 'replace'), 'client': client}))
+        return False
+    return True
+
+
 def shape_of(desc, ty, v):
     """which kinds of member / value a failing input exercises (for specific finding keys)"""
     shape = set()
@@ -228,6 +541,7 @@ def run(check):
     check.prove('Props.C01', THEOREMS)
     c01_wire.corr_objects(check, tier)
     corr_objects_x(check, tier)
+    corr_calls(check, tier)
     lib.flush_correspondences(check)
     return check.finish()
 
